@@ -37,6 +37,10 @@ def parseOutcome : Char → Option Outcome
   -- the deadline, so for the model these are a nil / an error return
   | 'w' => some .nil
   | 'W' => some .err
+  -- an error that is or wraps a standard-library sentinel is an error; a panic with one is a panic
+  | 'c' => some .err
+  | 'C' => some .err
+  | 'P' => some .panic
   | _ => none
 
 def listArg (s : String) : List String := if s = "-" then [] else s.splitOn ","
